@@ -8,7 +8,7 @@ use netflow_parser::{NetflowPacket, NetflowParseError, NetflowParser};
 use serde_json::json;
 
 /// the 15-packet menu of this property: the 12 self-delimiting packets + version-6, version-0, truncated V9
-const MENU: [usize; 26] = [0, 1, 2, 3, 4, 5, 6, 7, 8, 9, 10, 11, 12, 13, 14, 15, 16, menu::VERSION_6, menu::VERSION_0, menu::V9_TRUNCATED, menu::V9_D_ABSENT, 22, 23, 24, 25, 26];
+const MENU: [usize; 29] = [0, 1, 2, 3, 4, 5, 6, 7, 8, 9, 10, 11, 12, 13, 14, 15, 16, menu::VERSION_6, menu::VERSION_0, menu::V9_TRUNCATED, menu::V9_D_ABSENT, 22, 23, 24, 25, 26, 27, 28, 29];
 
 fn wire_len(e: &NetflowPacket, rest: usize) -> (u16, usize) {
     match e {
@@ -174,7 +174,7 @@ pub fn spaces(tier: &str) -> Vec<Box<dyn Space>> {
     let radices2 = [nl2, NLATE, menu::NALLOWED];
     vec![
         space(
-            &format!("buffers<={}-packets-over-26-packet-menu x 6 prior histories under the configuration x 64 allowed sets, each call judged, buffer delivered twice", maxlen),
+            &format!("buffers<={}-packets-over-29-packet-menu x 6 prior histories under the configuration x 64 allowed sets, each call judged, buffer delivered twice", maxlen),
             product(&radices),
             move |i| {
                 let d = digits(i, &radices);
@@ -212,7 +212,7 @@ pub fn run(tier: &str) -> i32 {
         prop: "C12".into(),
         tier: tier.into(),
         level: "model_checking",
-        rule: "every buffer = sequence of 1..=3 (thorough 4) packets over a 26-packet menu (17 self-delimiting packets, version-6, version-0, V9 truncated inside a template, V9 data for an absent id, five well-formed packets whose version field is 0x0109 / 0x0105 / 0x010a / 0x0107 / 0x0900) x 9 prior histories (six delivered under the configuration, two of them with unparsable versions and garbage; three delivered before the configuration is set, so that the set is narrowed over caches that already hold templates - these with buffers one packet shorter) x all 64 allowed sets (16 subsets of {5,7,9,10} x extras {none,{6},{0,11,65535}, 24 aliasing numbers}), the buffer delivered twice; EVERY call of the history is judged; oracle relative to a parser allowing all 65 536 versions from the same state: result(S) = maximal prefix of result(ALL) whose elements' versions are in S, caches(S) = caches of an ALL-parser fed only that prefix's bytes, unknown allowed versions are UnknownVersion errors, and allowed_versions itself is unchanged by every call. Distinct by hash of (result, allowed set)".into(),
+        rule: "every buffer = sequence of 1..=3 (thorough 4) packets over a 29-packet menu (three one-byte tails, 17 self-delimiting packets, version-6, version-0, V9 truncated inside a template, V9 data for an absent id, five well-formed packets whose version field is 0x0109 / 0x0105 / 0x010a / 0x0107 / 0x0900) x 9 prior histories (six delivered under the configuration, two of them with unparsable versions and garbage; three delivered before the configuration is set, so that the set is narrowed over caches that already hold templates - these with buffers one packet shorter) x all 64 allowed sets (16 subsets of {5,7,9,10} x extras {none,{6},{0,11,65535}, 24 aliasing numbers}), the buffer delivered twice; EVERY call of the history is judged; oracle relative to a parser allowing all 65 536 versions from the same state: result(S) = maximal prefix of result(ALL) whose elements' versions are in S, caches(S) = caches of an ALL-parser fed only that prefix's bytes, unknown allowed versions are UnknownVersion errors, and allowed_versions itself is unchanged by every call. Distinct by hash of (result, allowed set)".into(),
         bounds: json!({"buffer_len": if thorough {4} else {3}, "prior_histories": 9, "calls_judged_per_case": "2..=6", "allowed_sets": 64}),
         assumptions: vec![],
         trusted_base: vec!["c12::judge".into()],
